@@ -572,6 +572,17 @@ impl Server {
         let mut connections_with_writes = Vec::new();
         let mut did_work = false;
         
+        // Blocked connections are not read below, so a blocked client that went away would stay
+        // registered and swallow the next element pushed to its key: notice it here and let
+        // cleanup_connections drop it together with its registrations
+        for id in self.connections.all_connection_ids() {
+            self.connections.with_connection(id, |conn| {
+                if matches!(conn.state, ConnectionState::Blocked(_)) && conn.peer_closed() {
+                    conn.state = ConnectionState::Closing;
+                }
+            });
+        }
+        
         // Get all connection IDs, filtering out blocked connections for performance
         let conn_ids: Vec<u64> = self.connections.all_connection_ids()
             .into_iter()
